@@ -61,18 +61,56 @@ def cases(draw):
     }
 
 
+def wide_cases():
+    """one image whose default chunk (all of its 140 records of about 1 MB) is a request of
+    140 MB: opening it still takes one read of line records per chunk (round 14, C11n: a reader
+    that splits requests above a size cap)"""
+    yield {"wide": True, "level": "1.5", "lines": 140, "pixels": 499900, "rpc": 1024, "vseed": 5, "case_timeout_s": 600}
+    yield {"wide": True, "level": "1.5", "lines": 140, "pixels": 499900, "rpc": 100, "vseed": 6, "case_timeout_s": 600}
+
+
+def run_wide(case):
+    import ceos_alos2
+    from vf.runner import touch
+
+    spec = common.spec_from({"level": case["level"], "images": [{"lines": case["lines"], "pixels": case["pixels"]}], "vseed": case["vseed"]})
+    files, info = product.build_product(spec)
+    touch()
+    out = []
+    with harness.Materialised(files, "vtrace") as prod:
+        touch()
+        vtrace.STORE.clear()
+        tree, err = harness.guard(ceos_alos2.open_alos2, prod.url, backend_options={"use_cache": False, "records_per_chunk": case["rpc"]})
+        touch()
+        events = vtrace.STORE.snapshot()
+        if err is not None:
+            return [harness.disc("exception", "open_alos2", "a tree", harness.exc_text(err))]
+        geoms = {i["name"]: (i["lines"], i["reclen"]) for i in info["images"]}
+        sizes = {i["name"]: len(files[i["name"]]) for i in info["images"]}
+        check_open_events(events, geoms, sizes, case["rpc"], out)
+    return out
+
+
 def plan(tier):
     n = 500 if tier == "quick" else 60000
-    return [{"kind": "hyp", "name": "selections", "strategy": cases(), "examples": n}]
+    return [
+        {"kind": "enum", "name": "wide-chunk", "cases": wide_cases, "exhaustive": False},
+        {"kind": "hyp", "name": "selections", "strategy": cases(), "examples": n},
+    ]
 
 
 def classify(case):
+    if case.get("wide"):
+        return True, ["request>128 MiB", f"level={case['level']}"]
     n_groups = math.ceil(case["lines"] / min(case["rpc"], case["lines"]))
     labels = [f"groups={'1' if n_groups == 1 else '2-5' if n_groups <= 5 else '>5'}", f"level={case['level']}", f"prior_open={case.get('prior_open')}", f"copy={case.get('copy')}", f"create_cache={bool(case.get('create_cache'))}"]
     return n_groups >= 2, labels
 
 
 def sub_units(case):
+    if case.get("wide"):
+        yield [["wide", case["rpc"], case["vseed"]], "open"], True
+        return
     base = [case["level"], case["lines"], case["pixels"], case["rpc"], case["vseed"], case.get("prior_open"), case.get("copy"), bool(case.get("create_cache"))]
     n_groups = math.ceil(case["lines"] / min(case["rpc"], case["lines"]))
     yield [base, "open"], True
@@ -133,6 +171,8 @@ def lazy_control(grid):
 
 
 def run_case(case):
+    if case.get("wide"):
+        return run_wide(case)
     import xarray as xr
 
     images = [{"lines": case["lines"], "pixels": case["pixels"]}]
